@@ -25,6 +25,6 @@ func (r *rng) i64n(n int64) int64 {
 	return int64(r.u64() % uint64(n))
 }
 func (r *rng) rangeI64(lo, hi int64) int64 { return lo + r.i64n(hi-lo+1) }
-func (r *rng) chance(num, den int) bool   { return r.intn(den) < num }
-func (r *rng) pick(ss ...string) string   { return ss[r.intn(len(ss))] }
-func (r *rng) fork() *rng                 { return newRng(r.u64()) }
+func (r *rng) chance(num, den int) bool    { return r.intn(den) < num }
+func (r *rng) pick(ss ...string) string    { return ss[r.intn(len(ss))] }
+func (r *rng) fork() *rng                  { return newRng(r.u64()) }
